@@ -14,7 +14,9 @@
     overflow); the model answers [None] for every fuel ([C06_cycle_diverges]).
 
     The hardware-fault clause of the property is NOT a theorem: it is enumerated
-    on the real checks by the harness (props/C06.json, level_note). *)
+    on the real checks by the harness (props/C06.json, level_note).  Its per-check
+    form ("the check ran alone on stored results, every access it made failed")
+    rests on [C06_prefilled_check_alone] for the runner side. *)
 From CSS Require Import Lib.Base Model.Runner Proofs.Runner.
 Local Open Scope nat_scope.
 
@@ -129,6 +131,29 @@ Proof.
 Qed.
 Print Assumptions C06_final_consistent_refuted.
 
+(** The setting in which the harness applies the fault clause to ONE check
+    (harness/cmd/c06/alone.go): the results of an earlier run are stored, every
+    implemented dependency of [id] is PASS, [id] itself is run (again).  Then
+    Test.Run enters no dependency and evaluates exactly the check of [id], once;
+    the verdict is the classification of what that one evaluation returned --
+    PASS iff it returned success without errors -- and no other stored result
+    changes.  So in this setting every hardware access of the call is made by the
+    check of [id], and a PASS can only come from that check: the runner never
+    turns stored results into a PASS.  Holds for any stored results of the other
+    tests, any (time-varying) checks, any fuel above zero, and needs no
+    acyclicity because no dependency is entered. *)
+Theorem C06_prefilled_check_alone :
+  forall ts chk fuel asdep s id,
+    (forall d, In d (deps (ts id)) -> implemented (ts d) = true -> res s d = RPass) ->
+    let o := chk id (evals id (trace s)) in
+    exists s', run ts chk (S fuel) asdep s id = Some s' /\
+      trace s' = trace s ++ [mkEv id asdep o] /\
+      res s' id = classify o /\
+      (res s' id = RPass <-> o = o_pass) /\
+      (forall j, j <> id -> res s' j = res s j).
+Proof. exact prefilled_check_alone. Qed.
+Print Assumptions C06_prefilled_check_alone.
+
 (** RunTestsSilent reports overall success only if every listed test that is
     Required and implemented is PASS in the final state (any checks, any stored
     results at the start, repetitions allowed). *)
@@ -190,6 +215,20 @@ Example ex_run_pass :
   exists s', run ex_ts ex_chk 4 false init_state 1 = Some s' /\ res s' 1 = RPass /\
     trace s' = [mkEv 3 true o_pass; mkEv 1 false o_pass].
 Proof. eexists. split; [vm_compute; reflexivity|]. split; vm_compute; reflexivity. Qed.
+
+(** the hypothesis of [C06_prefilled_check_alone] is satisfiable with a non-trivial
+    state: after Run(1) (3 and 1 PASS), Run(1) again evaluates only the check of
+    1 -- the check of 3 is not evaluated a second time *)
+Example ex_prefilled :
+  exists s1 s2, run ex_ts ex_chk 4 false init_state 1 = Some s1 /\
+    (forall d, In d (deps (ex_ts 1)) -> implemented (ex_ts d) = true -> res s1 d = RPass) /\
+    run ex_ts ex_chk 4 false s1 1 = Some s2 /\
+    trace s2 = [mkEv 3 true o_pass; mkEv 1 false o_pass; mkEv 1 false o_pass].
+Proof.
+  eexists. eexists. split; [vm_compute; reflexivity|]. split.
+  - intros d [<-|[]] _. vm_compute. reflexivity.
+  - split; vm_compute; reflexivity.
+Qed.
 
 (** the silent runner stops at the first required failure and says so *)
 Example ex_silent :
